@@ -44,6 +44,7 @@ def rules(ctx):
     c195(ctx)
     c196(ctx)
     c197(ctx)
+    c198(ctx)
 
 
 def builder_params(f):
@@ -584,3 +585,29 @@ def c197(ctx):
                           "that the vector does not have, and the psi wavelet tree's upper bound comes out one too high (count of an absent pattern is 1)"
                           % f.skey, pt=(b.idx, i))
     ctx.floor(R, "non-constant answers of the rrr select helpers", n, 2)
+
+
+# ------------------------------------------------------------------------------------------------
+# C19.8 rank(len) is not looked up like a position inside the vector (siblings: rrr, cf_rrr)
+
+def c198(ctx):
+    R = "C19.8"
+    ctx.declare(R, "rank(len) is answered from the last position: every block-structured rank compares its index with len() for equality before it "
+                   "divides it by the block size (len / stride is one past the block table when len is a multiple of the block size)")
+    n = 0
+    for f in sorted(ctx.prog.fns.values(), key=lambda f: f.key):
+        if not re.match(r"^<scrunch::bit_vector::(rrr|cf_rrr)::BitVector as scrunch::bit_vector::BitVector>::rank$", f.skey):
+            continue
+        n += 1
+        eq = False
+        for b in f.blocks:
+            for st in b.st:
+                if st["s"] == "=" and st["rv"]["r"] == "bin" and st["rv"]["op"] in ("Eq", "Ne"):
+                    a_, b_ = st["rv"]["a"], st["rv"]["b"]
+                    pa = any(x["k"] == "param" and x["i"] == 2 for x in P.origins(f, a_)) or any(x["k"] == "param" and x["i"] == 2 for x in P.origins(f, b_))
+                    ln = any(x["k"] == "call" and x["callee"].endswith("::len") for x in P.origins(f, a_) + P.origins(f, b_))
+                    eq = eq or (pa and ln)
+        ctx.check(R, f, "rank-at-len-special-cased", eq, "%s treats index == len() separately" % f.skey.split(" as ")[0].lstrip("<"),
+                  "%s hands index == len() to the block lookup: for a length that is a multiple of the block size the block table has no such "
+                  "entry and rank(len) answers None where a plain bit array answers the number of ones" % f.skey.split(" as ")[0].lstrip("<"))
+    ctx.floor(R, "block-structured rank implementations", n, 2)
